@@ -135,17 +135,14 @@ def run(ctx: Ctx) -> None:
                     ctx.ob("C10.R2", f, c, f"caller of Grammar.{nm}", ok,
                            "" if ok else f"Grammar.{nm} is called during synthesis/search: the grammar is rebuilt or extended after extraction")
     # stores to production weights
+    from .common import weight_store_sites, weight_writers
     for f in prog.functions.values():
-        for n in walk_local(f.node):
-            if isinstance(n, (ast.Assign, ast.AugAssign)):
-                tg = n.targets if isinstance(n, ast.Assign) else [n.target]
-                for t in tg:
-                    if isinstance(t, ast.Subscript) and isinstance(t.slice, ast.Constant) and t.slice.value == "weight":
-                        n2 += 1
-                        from .common import weight_writers
-                        ok = f.fullname in weight_writers(prog)
-                        ctx.ob("C10.R2", f, n, "store to a production weight", ok,
-                               "" if ok else "production weights are rewritten outside the weight decorator / update_weights")
+        for n in weight_store_sites(f):
+            n2 += 1
+            ok = f.fullname in weight_writers(prog)
+            ctx.ob("C10.R2", f, n, "store to a production weight", ok,
+                   "" if ok else f"'{norm(n)[:60]}' writes a production weight outside the weight decorator / update_weights: reading a weight must not "
+                                 f"declare one (an unweighted grammar becomes a weighted one, and the next extraction renormalises it)")
     ctx.floor("C10.R2", n2, 6, "construction calls and weight stores")
 
     # ---- R4 refinement objects are part of the grammar: their state is read-only after construction
